@@ -170,7 +170,7 @@ func init() {
 }
 
 // representative argument values (formula text over the world's names)
-var c03Args = []string{"null", "true", "-1", "0", "1", "1.5", "1000000", "''", "'a'", "'('", "[]", "['a',1]", "m", "t", "len", "arr", "st", "np", "nan", "strs", "u64", "fnV", "'12'", "maps", "nsl", "nmp", "t0"}
+var c03Args = []string{"null", "true", "-1", "0", "1", "1.5", "1000000", "''", "'a'", "'('", "[]", "['a',1]", "m", "t", "len", "arr", "st", "np", "nan", "strs", "u64", "fnV", "'12'", "maps", "nsl", "nmp", "t0", "ndec", "fnND()"}
 
 // TestC03BuiltinMisuse: every builtin x every argument tuple of length 0..2
 // (and a sweep of length 3/4 with one varying position).
